@@ -323,7 +323,8 @@ def hex_table(P, R, rule='C13.TAB.3'):
                 continue
             table[idx & 255] = v
     if undecided or not table:
-        raise AnalysisBroken('%s: the table initialiser could not be folded over its digit string (%d undecided stores)' % (rule, undecided))
+        R.note('%s: the table initialiser could not be folded over its digit string (%d undecided stores); not judged' % (rule, undecided))
+        return
     xd = 32
     for t in ci.sites():
         pass
@@ -769,7 +770,10 @@ def mask_walk_from_start(P, R, rule='C13.TAB.7'):
     f = P.need_fn('irc_check_mask')
     from ..model import rel as _rel
     n = 0
-    cmp_blocks = [b for b in f.reachable_blocks() if f.term_cond(b) is not None and sum(1 for x in walk(f.term_cond(b)) if isinstance(x, dict) and x.get('k') == 'idx' and on_path(x, 'in6')) >= 2]
+    def addr_idx(x):
+        # an element of the address through any view of the union (in6, in6_8, in6_32): which view is right is TAB.5's matter
+        return isinstance(x, dict) and x.get('k') == 'idx' and any(isinstance(y, dict) and y.get('k') == 'mem' and str(y.get('field', '')).startswith('in6') for y in walk(x.get('base')))
+    cmp_blocks = [b for b in f.reachable_blocks() if f.term_cond(b) is not None and sum(1 for x in walk(f.term_cond(b)) if addr_idx(x)) >= 2]
     if not cmp_blocks:
         raise AnalysisBroken('the mask test no longer compares group by group')
     cyc = [b for b in cmp_blocks if b in f.reach([e.dst for e in f.out[b]])]
